@@ -633,18 +633,25 @@ fn exec_op_inner<C: Cv, CS: ConstraintSystem<Fr<C>>>(
                            "ret":[var_json(&a), var_json(&b), var_json(&c)],"err":""}));
             Ok(())
         }
-        Op::Con { lc, fix, delta } => {
+        Op::Con { lc, fix, delta, split } => {
             let mut ts = terms(cx, lc);
             if let Some(id) = fix {
-                let c = if is_p {
+                // k: the constant that satisfies the constraint, d: the stated offset
+                let (k, d) = if is_p {
                     let d = delta.as_ref().map(|d| cx.val(d)).unwrap_or_else(Fr::<C>::zero);
-                    let c = -eval_terms(cs, cx, hk, &ts) + d;
-                    cx.consts.borrow_mut().insert(*id, c);
-                    c
+                    let k = -eval_terms(cs, cx, hk, &ts);
+                    cx.consts.borrow_mut().insert(*id, k);
+                    cx.consts.borrow_mut().insert(*id + (1 << 40), d);
+                    (k, d)
                 } else {
-                    cx.consts.borrow().get(id).copied().unwrap_or_else(Fr::<C>::zero)
+                    (cx.consts.borrow().get(id).copied().unwrap_or_else(Fr::<C>::zero),
+                     cx.consts.borrow().get(&(*id + (1 << 40))).copied().unwrap_or_else(Fr::<C>::zero))
                 };
-                ts.push((Variable::One(), c));
+                match split.as_deref() {
+                    Some("first") => { ts.push((Variable::One(), k)); ts.push((Variable::One(), d)); }
+                    Some("last") => { ts.push((Variable::One(), d)); ts.push((Variable::One(), k)); }
+                    _ => ts.push((Variable::One(), k + d)),
+                }
             }
             cs.constrain(lc_of::<C>(&ts));
             cx.emit(json!({"ev":"call","ph":ph,"op":"con","lc":terms_json::<C>(&ts),"ret":[],"err":""}));
